@@ -104,6 +104,8 @@ class RegressionAdjustment(object):
         self._parameter_names = parameter_names or sample.parameter_names
         self._get_finite()
 
+        # Start from an empty list: a refitted adjustment must not keep using earlier models
+        self.regression_models = []
         for pair in self._pairs():
             self.regression_models.append(self._fit1(*pair))
 
